@@ -1333,9 +1333,6 @@ where
 		if tx.confirmed {
 			continue;
 		}
-		if tx.amount_debited != 0 && tx.amount_credited != 0 {
-			continue;
-		}
 		if let Some(e) = tx.kernel_excess {
 			let res = client.get_kernel(&e, tx.kernel_lookup_min_height, Some(height));
 			let kernel = match res {
